@@ -8,7 +8,15 @@ import Mathlib.LinearAlgebra.Matrix.Kronecker
   `(a, b)`; Peres' criterion, closure of the separable mixtures under local maps and exchange;
 * `unflat`: the bridge from the flat index `a * dB + b` of the executable model to the pair index;
 * soundness of the smallest-eigenvalue certificates;
-* algebra of the Gurvits–Barnum ball test over `ℚ`.
+* algebra of the Gurvits–Barnum ball test over `ℚ`;
+* the necessary criteria evaluated after the PPT test, as statements about `IsSepMix` for all local index types:
+  `nsq`, Cauchy–Schwarz (`re_dot_sq_le`, `normSq_dot_le`), rectangular contractions `IsContr`, the rank-one bound
+  `IsContr.re_trace_vecMulVec_sq_le`, `realignM` and the realignment criterion `IsSepMix.re_trace_realign_le`;
+  partial traces `ptrB`/`ptrA`, the covariance identities and the Zhang et al. bound (`zhang_general`,
+  `IsSepMix.zhang`); `applyB`/`applyA`, `IsPosOnPure`, `choiMap` and the positive-map criterion
+  (`IsSepMix.applyB_posSemidef`, `IsSepMix.applyA_posSemidef`); singular value decompositions and the dual form of
+  the trace norm (`nucNorm`, `nucNorm_eq_sum_of_svd`); positivity of the transposition, reduction and Breuer–Hall
+  maps; bridges for the executable `realignE`, `ptrBE`, `ptrAE`, `choiApplyB`, `choiApplyA`; the Ha–Kye Choi matrices.
 -/
 
 open Matrix
@@ -449,5 +457,936 @@ theorem ball_alg (X : Matrix (Fin n) (Fin n) ℂ) (ht : 0 < (Matrix.trace X).re)
   constructor <;> intro h <;> nlinarith
 
 end Ball
+
+/-! ## Necessary criteria beyond PPT: realignment (CCNR)
+
+The trace (nuclear) norm of a rectangular matrix `M` is used in its dual form
+`‖M‖₁ = sup { Re tr(Wᴴ M) : 1 − WᴴW ⪰ 0 }`; every statement `‖M‖₁ ≤ c` is stated as
+`∀ W, IsContr W → Re tr(Wᴴ M) ≤ c` (no attainment needed). -/
+
+section Nsq
+variable {ι κ : Type*} [Fintype ι] [Fintype κ]
+
+/-- squared Euclidean norm `Σ_i |x_i|²` of a complex vector -/
+noncomputable def nsq (x : ι → ℂ) : ℝ := ∑ i, Complex.normSq (x i)
+
+theorem nsq_nonneg (x : ι → ℂ) : 0 ≤ nsq x :=
+  Finset.sum_nonneg fun _ _ => Complex.normSq_nonneg _
+
+theorem nsq_eq_re (x : ι → ℂ) : nsq x = (star x ⬝ᵥ x).re := by
+  unfold nsq dotProduct
+  rw [Complex.re_sum]
+  refine Finset.sum_congr rfl fun i _ => ?_
+  simp [Complex.normSq_apply]
+
+theorem star_dotProduct_self (x : ι → ℂ) : star x ⬝ᵥ x = ((nsq x : ℝ) : ℂ) := by
+  unfold nsq dotProduct
+  rw [Complex.ofReal_sum]
+  refine Finset.sum_congr rfl fun i _ => ?_
+  rw [Pi.star_apply, Complex.star_def, mul_comm, Complex.mul_conj]
+
+theorem nsq_star (x : ι → ℂ) : nsq (star x) = nsq x := by
+  unfold nsq
+  refine Finset.sum_congr rfl fun i _ => ?_
+  simp [Complex.normSq_conj]
+
+theorem nsq_smul (c : ℂ) (x : ι → ℂ) : nsq (c • x) = Complex.normSq c * nsq x := by
+  unfold nsq
+  rw [Finset.mul_sum]
+  refine Finset.sum_congr rfl fun i _ => ?_
+  simp [Complex.normSq_mul]
+
+/-- Cauchy–Schwarz, real-part form: `(Re ⟨u, y⟩)² ≤ ‖u‖² ‖y‖²` -/
+theorem re_dot_sq_le (u y : ι → ℂ) : ((star u ⬝ᵥ y).re) ^ 2 ≤ nsq u * nsq y := by
+  have h := Finset.sum_mul_sq_le_sq_mul_sq (Finset.univ : Finset (ι ⊕ ι))
+    (Sum.elim (fun i => (u i).re) (fun i => (u i).im)) (Sum.elim (fun i => (y i).re) (fun i => (y i).im))
+  rw [Fintype.sum_sum_type, Fintype.sum_sum_type, Fintype.sum_sum_type] at h
+  simp only [Sum.elim_inl, Sum.elim_inr] at h
+  have e1 : (star u ⬝ᵥ y).re = ∑ i, (u i).re * (y i).re + ∑ i, (u i).im * (y i).im := by
+    unfold dotProduct
+    rw [Complex.re_sum, ← Finset.sum_add_distrib]
+    refine Finset.sum_congr rfl fun i _ => ?_
+    simp
+  have e2 : ∀ x : ι → ℂ, nsq x = ∑ i, (x i).re ^ 2 + ∑ i, (x i).im ^ 2 := by
+    intro x
+    unfold nsq
+    rw [← Finset.sum_add_distrib]
+    refine Finset.sum_congr rfl fun i _ => ?_
+    rw [Complex.normSq_apply]; ring
+  rw [e1, e2 u, e2 y]
+  exact h
+
+/-- Cauchy–Schwarz, modulus form: `|⟨u, y⟩|² ≤ ‖u‖² ‖y‖²` -/
+theorem normSq_dot_le (u y : ι → ℂ) : Complex.normSq (star u ⬝ᵥ y) ≤ nsq u * nsq y := by
+  set z := star u ⬝ᵥ y with hz
+  have h := re_dot_sq_le u ((starRingEnd ℂ z) • y)
+  rw [dotProduct_smul, smul_eq_mul, ← hz, nsq_smul, Complex.normSq_conj] at h
+  have e : ((starRingEnd ℂ) z * z).re = Complex.normSq z := by
+    rw [mul_comm, Complex.mul_conj]; simp
+  rw [e] at h
+  rcases (Complex.normSq_nonneg z).lt_or_eq with hpos | h0
+  · have : Complex.normSq z * Complex.normSq z ≤ Complex.normSq z * (nsq u * nsq y) := by
+      calc Complex.normSq z * Complex.normSq z = Complex.normSq z ^ 2 := by ring
+        _ ≤ nsq u * (Complex.normSq z * nsq y) := h
+        _ = Complex.normSq z * (nsq u * nsq y) := by ring
+    exact le_of_mul_le_mul_left this hpos
+  · rw [← h0]; exact mul_nonneg (nsq_nonneg _) (nsq_nonneg _)
+
+end Nsq
+
+section Contr
+variable {ι κ : Type*} [Fintype ι] [Fintype κ] [DecidableEq κ]
+
+/-- `W` (rectangular) has operator norm at most one: `1 − WᴴW ⪰ 0` -/
+def IsContr (W : Matrix ι κ ℂ) : Prop := (1 - Wᴴ * W).PosSemidef
+
+theorem IsContr.nsq_mulVec_le {W : Matrix ι κ ℂ} (h : IsContr W) (x : κ → ℂ) :
+    nsq (W *ᵥ x) ≤ nsq x := by
+  have h1 := h.dotProduct_mulVec_nonneg x
+  rw [Matrix.sub_mulVec, dotProduct_sub, Matrix.one_mulVec, ← Matrix.mulVec_mulVec,
+    dotProduct_mulVec, ← star_mulVec, star_dotProduct_self, star_dotProduct_self] at h1
+  have h2 := (Complex.nonneg_iff.mp h1).1
+  simp only [Complex.sub_re, Complex.ofReal_re] at h2
+  linarith
+
+omit [Fintype κ] in
+theorem IsContr.zero : IsContr (0 : Matrix ι κ ℂ) := by
+  unfold IsContr; simpa using PosSemidef.one
+
+omit [DecidableEq κ] in
+/-- `tr(Wᴴ u vᵀ) = ⟨W v̄, u⟩` -/
+theorem trace_ct_mul_vecMulVec (W : Matrix ι κ ℂ) (u : ι → ℂ) (v : κ → ℂ) :
+    (Wᴴ * vecMulVec u v).trace = star (W *ᵥ star v) ⬝ᵥ u := by
+  simp only [Matrix.trace, Matrix.diag_apply, Matrix.mul_apply, vecMulVec_apply, dotProduct,
+    Matrix.mulVec, Pi.star_apply, conjTranspose_apply, star_sum, star_mul', star_star]
+  rw [Finset.sum_comm]
+  refine Finset.sum_congr rfl fun i _ => ?_
+  rw [Finset.sum_mul]
+  refine Finset.sum_congr rfl fun j _ => ?_
+  ring
+
+/-- **rank one**: `(Re tr(Wᴴ u vᵀ))² ≤ ‖u‖² ‖v‖²` for every contraction `W` -/
+theorem IsContr.re_trace_vecMulVec_sq_le {W : Matrix ι κ ℂ} (h : IsContr W) (u : ι → ℂ) (v : κ → ℂ) :
+    ((Wᴴ * vecMulVec u v).trace.re) ^ 2 ≤ nsq u * nsq v := by
+  rw [trace_ct_mul_vecMulVec]
+  refine (re_dot_sq_le _ _).trans ?_
+  have := h.nsq_mulVec_le (star v)
+  rw [nsq_star] at this
+  rw [mul_comm]
+  exact mul_le_mul_of_nonneg_left this (nsq_nonneg _)
+
+end Contr
+
+section Realign
+variable {m n : Type*}
+
+/-- realignment on pair indices: `R(X)((a,a'),(b,b')) = X((a,b),(a',b'))`; a `(m×m) × (n×n)` matrix -/
+def realignM (X : Matrix (m × n) (m × n) ℂ) : Matrix (m × m) (n × n) ℂ :=
+  fun i j => X (i.1, j.1) (i.2, j.2)
+
+/-- row-major vectorisation of a square matrix -/
+def vecr {ι : Type*} (A : Matrix ι ι ℂ) : ι × ι → ℂ := fun p => A p.1 p.2
+
+theorem realignM_kron (A : Matrix m m ℂ) (B : Matrix n n ℂ) :
+    realignM (A ⊗ₖ B) = vecMulVec (vecr A) (vecr B) := by
+  ext ⟨a, a'⟩ ⟨b, b'⟩
+  simp [realignM, vecr, vecMulVec_apply, kroneckerMap_apply]
+
+theorem realignM_smul (c : ℂ) (X : Matrix (m × n) (m × n) ℂ) : realignM (c • X) = c • realignM X := by
+  ext i j; simp [realignM]
+
+theorem realignM_add (X Y : Matrix (m × n) (m × n) ℂ) : realignM (X + Y) = realignM X + realignM Y := by
+  ext i j; simp [realignM]
+
+theorem realignM_sub (X Y : Matrix (m × n) (m × n) ℂ) : realignM (X - Y) = realignM X - realignM Y := by
+  ext i j; simp [realignM]
+
+theorem realignM_sum {K : Type*} (s : Finset K) (f : K → Matrix (m × n) (m × n) ℂ) :
+    realignM (∑ k ∈ s, f k) = ∑ k ∈ s, realignM (f k) := by
+  ext i j; simp [realignM, Matrix.sum_apply]
+
+variable [Fintype m] [Fintype n]
+
+theorem nsq_vecr {ι : Type*} [Fintype ι] (A : Matrix ι ι ℂ) : nsq (vecr A) = frobSq A := by
+  unfold nsq frobSq vecr
+  rw [Fintype.sum_prod_type]
+
+theorem frobSq_proj {ι : Type*} [Fintype ι] (a : ι → ℂ) : frobSq (proj a) = nsq a ^ 2 := by
+  unfold frobSq nsq proj
+  rw [pow_two, Finset.sum_mul_sum]
+  refine Finset.sum_congr rfl fun i _ => Finset.sum_congr rfl fun j _ => ?_
+  simp [vecMulVec_apply, Complex.normSq_mul, Complex.normSq_conj]
+
+theorem trace_proj {ι : Type*} [Fintype ι] (a : ι → ℂ) : (proj a).trace = ((nsq a : ℝ) : ℂ) := by
+  rw [← star_dotProduct_self]
+  simp [proj, Matrix.trace, vecMulVec_apply, dotProduct, mul_comm]
+
+theorem trace_proj_kron (a : m → ℂ) (b : n → ℂ) :
+    (proj a ⊗ₖ proj b).trace = ((nsq a * nsq b : ℝ) : ℂ) := by
+  rw [trace_kronecker, trace_proj, trace_proj]; push_cast; rfl
+
+variable [DecidableEq n]
+
+/-- realignment criterion for one product term -/
+theorem IsContr.re_trace_realign_proj_le {W : Matrix (m × m) (n × n) ℂ} (h : IsContr W)
+    (a : m → ℂ) (b : n → ℂ) :
+    (Wᴴ * realignM (proj a ⊗ₖ proj b)).trace.re ≤ nsq a * nsq b := by
+  rw [realignM_kron]
+  have h1 := h.re_trace_vecMulVec_sq_le (vecr (proj a)) (vecr (proj b))
+  rw [nsq_vecr, nsq_vecr, frobSq_proj, frobSq_proj, ← mul_pow] at h1
+  exact (le_abs_self _).trans (abs_le_of_sq_le_sq h1 (mul_nonneg (nsq_nonneg _) (nsq_nonneg _)))
+
+/-- **Realignment (CCNR) criterion**: `Re tr(Wᴴ R(ρ)) ≤ tr ρ` for every separable mixture `ρ` and every
+contraction `W`, i.e. `‖R(ρ)‖₁ ≤ tr ρ`. -/
+theorem IsSepMix.re_trace_realign_le {ρ : Matrix (m × n) (m × n) ℂ} (hρ : IsSepMix ρ)
+    {W : Matrix (m × m) (n × n) ℂ} (h : IsContr W) :
+    (Wᴴ * realignM ρ).trace.re ≤ ρ.trace.re := by
+  obtain ⟨K, w, a, b, hw, rfl⟩ := hρ
+  rw [realignM_sum, Matrix.mul_sum, Matrix.trace_sum, Matrix.trace_sum, Complex.re_sum, Complex.re_sum]
+  refine Finset.sum_le_sum fun k _ => ?_
+  rw [realignM_smul, Matrix.mul_smul, Matrix.trace_smul, Matrix.trace_smul, smul_eq_mul, smul_eq_mul,
+    Complex.re_ofReal_mul, Complex.re_ofReal_mul, trace_proj_kron, Complex.ofReal_re]
+  exact mul_le_mul_of_nonneg_left (h.re_trace_realign_proj_le _ _) (hw k)
+
+end Realign
+
+/-! ## The Zhang–Zhang–Zhang–Guo bound ("beyond realignment")
+
+Covariance form: for `ρ = Σ_k p_k α_k ⊗ β_k` one has `ρ − ρ_A ⊗ ρ_B = Σ_k p_k (α_k − ρ_A) ⊗ (β_k − ρ_B)`, each term realigns to
+a rank-one matrix, and Cauchy–Schwarz over `k` bounds the trace norm by the product of the standard deviations
+`√(Σ_k p_k ‖α_k − ρ_A‖_F²) = √(Σ_k p_k ‖α_k‖_F² − ‖ρ_A‖_F²) ≤ √(1 − tr ρ_A²)`. -/
+
+section Cov
+/-- covariance identity: `Σ p_k (x_k − X)(y_k − Y) = Σ p_k x_k y_k − X Y` for `X = Σ p x`, `Y = Σ p y`, `Σ p = 1` -/
+theorem cov_identity {F K : Type*} [CommRing F] (s : Finset K) (p x y : K → F) (hp : ∑ k ∈ s, p k = 1) :
+    ∑ k ∈ s, p k * ((x k - ∑ l ∈ s, p l * x l) * (y k - ∑ l ∈ s, p l * y l))
+      = ∑ k ∈ s, p k * (x k * y k) - (∑ l ∈ s, p l * x l) * (∑ l ∈ s, p l * y l) := by
+  set X := ∑ l ∈ s, p l * x l with hX
+  set Y := ∑ l ∈ s, p l * y l with hY
+  have e : ∀ k, p k * ((x k - X) * (y k - Y))
+      = p k * (x k * y k) - (p k * x k) * Y - X * (p k * y k) + p k * (X * Y) := by
+    intro k; ring
+  simp_rw [e]
+  rw [Finset.sum_add_distrib, Finset.sum_sub_distrib, Finset.sum_sub_distrib, ← Finset.sum_mul,
+    ← Finset.mul_sum, ← Finset.sum_mul, hp, ← hX, ← hY]
+  ring
+
+/-- variance identity for real weights and complex values -/
+theorem var_identity {K : Type*} (s : Finset K) (p : K → ℝ) (x : K → ℂ) (hp : ∑ k ∈ s, p k = 1) :
+    ∑ k ∈ s, p k * Complex.normSq (x k - ∑ l ∈ s, (p l : ℂ) * x l)
+      = ∑ k ∈ s, p k * Complex.normSq (x k) - Complex.normSq (∑ l ∈ s, (p l : ℂ) * x l) := by
+  have hre : (∑ l ∈ s, (p l : ℂ) * x l).re = ∑ l ∈ s, p l * (x l).re := by
+    rw [Complex.re_sum]; simp
+  have him : (∑ l ∈ s, (p l : ℂ) * x l).im = ∑ l ∈ s, p l * (x l).im := by
+    rw [Complex.im_sum]; simp
+  have h1 := cov_identity s p (fun k => (x k).re) (fun k => (x k).re) hp
+  have h2 := cov_identity s p (fun k => (x k).im) (fun k => (x k).im) hp
+  simp only [Complex.normSq_apply, Complex.sub_re, Complex.sub_im, hre, him, mul_add,
+    Finset.sum_add_distrib]
+  linarith
+
+end Cov
+
+section Zhang
+variable {m n : Type*} [Fintype m] [Fintype n]
+
+/-- partial trace over the second party: `ρ_A(a,a') = Σ_b X((a,b),(a',b))` -/
+def ptrB (X : Matrix (m × n) (m × n) ℂ) : Matrix m m ℂ := fun a a' => ∑ b, X (a, b) (a', b)
+
+/-- partial trace over the first party: `ρ_B(b,b') = Σ_a X((a,b),(a,b'))` -/
+def ptrA (X : Matrix (m × n) (m × n) ℂ) : Matrix n n ℂ := fun b b' => ∑ a, X (a, b) (a, b')
+
+omit [Fintype m] in
+theorem ptrB_kron (A : Matrix m m ℂ) (B : Matrix n n ℂ) : ptrB (A ⊗ₖ B) = B.trace • A := by
+  ext a a'
+  simp [ptrB, kroneckerMap_apply, Matrix.trace, ← Finset.mul_sum, mul_comm]
+
+omit [Fintype n] in
+theorem ptrA_kron (A : Matrix m m ℂ) (B : Matrix n n ℂ) : ptrA (A ⊗ₖ B) = A.trace • B := by
+  ext b b'
+  simp [ptrA, kroneckerMap_apply, Matrix.trace, ← Finset.sum_mul]
+
+omit [Fintype m] in
+theorem ptrB_smul (c : ℂ) (X : Matrix (m × n) (m × n) ℂ) : ptrB (c • X) = c • ptrB X := by
+  ext a a'; simp [ptrB, Finset.mul_sum]
+
+omit [Fintype n] in
+theorem ptrA_smul (c : ℂ) (X : Matrix (m × n) (m × n) ℂ) : ptrA (c • X) = c • ptrA X := by
+  ext a a'; simp [ptrA, Finset.mul_sum]
+
+omit [Fintype m] in
+theorem ptrB_sum {K : Type*} (s : Finset K) (f : K → Matrix (m × n) (m × n) ℂ) :
+    ptrB (∑ k ∈ s, f k) = ∑ k ∈ s, ptrB (f k) := by
+  ext a a'; simp only [ptrB, Matrix.sum_apply]; rw [Finset.sum_comm]
+
+omit [Fintype n] in
+theorem ptrA_sum {K : Type*} (s : Finset K) (f : K → Matrix (m × n) (m × n) ℂ) :
+    ptrA (∑ k ∈ s, f k) = ∑ k ∈ s, ptrA (f k) := by
+  ext a a'; simp only [ptrA, Matrix.sum_apply]; rw [Finset.sum_comm]
+
+theorem trace_ptrB (X : Matrix (m × n) (m × n) ℂ) : (ptrB X).trace = X.trace := by
+  simp [ptrB, Matrix.trace, Fintype.sum_prod_type]
+
+theorem trace_ptrA (X : Matrix (m × n) (m × n) ℂ) : (ptrA X).trace = X.trace := by
+  simp only [ptrA, Matrix.trace, Matrix.diag_apply, Fintype.sum_prod_type]; rw [Finset.sum_comm]
+
+/-- `Σ_k p_k ‖α_k − ᾱ‖_F² = Σ_k p_k ‖α_k‖_F² − ‖ᾱ‖_F²` for `ᾱ = Σ_k p_k α_k`, `Σ p = 1` -/
+theorem frobSq_var {ι K : Type*} [Fintype ι] (s : Finset K) (p : K → ℝ) (α : K → Matrix ι ι ℂ)
+    (hp : ∑ k ∈ s, p k = 1) :
+    ∑ k ∈ s, p k * frobSq (α k - ∑ l ∈ s, (p l : ℂ) • α l)
+      = ∑ k ∈ s, p k * frobSq (α k) - frobSq (∑ l ∈ s, (p l : ℂ) • α l) := by
+  unfold frobSq
+  simp_rw [Finset.mul_sum]
+  rw [Finset.sum_comm, Finset.sum_comm (s := s) (t := Finset.univ), ← Finset.sum_sub_distrib]
+  refine Finset.sum_congr rfl fun i _ => ?_
+  rw [Finset.sum_comm, Finset.sum_comm (s := s) (t := Finset.univ), ← Finset.sum_sub_distrib]
+  refine Finset.sum_congr rfl fun j _ => ?_
+  have := var_identity s p (fun k => α k i j) hp
+  simpa [Matrix.sub_apply, Matrix.sum_apply, Matrix.smul_apply] using this
+
+omit [Fintype m] [Fintype n] in
+/-- `Σ_k p_k (α_k − ᾱ) ⊗ (β_k − β̄) = Σ_k p_k α_k ⊗ β_k − ᾱ ⊗ β̄` -/
+theorem kron_cov {K : Type*} (s : Finset K) (p : K → ℝ) (α : K → Matrix m m ℂ) (β : K → Matrix n n ℂ)
+    (hp : ∑ k ∈ s, p k = 1) :
+    ∑ k ∈ s, (p k : ℂ) • ((α k - ∑ l ∈ s, (p l : ℂ) • α l) ⊗ₖ (β k - ∑ l ∈ s, (p l : ℂ) • β l))
+      = ∑ k ∈ s, (p k : ℂ) • (α k ⊗ₖ β k)
+        - (∑ l ∈ s, (p l : ℂ) • α l) ⊗ₖ (∑ l ∈ s, (p l : ℂ) • β l) := by
+  ext ⟨a, b⟩ ⟨a', b'⟩
+  have hp' : ∑ k ∈ s, (p k : ℂ) = 1 := by rw [← Complex.ofReal_sum, hp]; simp
+  have := cov_identity s (fun k => (p k : ℂ)) (fun k => α k a a') (fun k => β k b b') hp'
+  simpa [Matrix.sub_apply, Matrix.sum_apply, Matrix.smul_apply, kroneckerMap_apply] using this
+
+end Zhang
+
+section ZhangMain
+variable {m n : Type*} [Fintype m] [Fintype n] [DecidableEq n]
+
+/-- one weighted product term: `p · Re tr(Wᴴ R(A ⊗ B)) ≤ √(p‖A‖_F²) √(p‖B‖_F²)` -/
+theorem IsContr.weighted_term_le {W : Matrix (m × m) (n × n) ℂ} (h : IsContr W) (p : ℝ) (hp : 0 ≤ p)
+    (A : Matrix m m ℂ) (B : Matrix n n ℂ) :
+    p * (Wᴴ * realignM (A ⊗ₖ B)).trace.re ≤ √(p * frobSq A) * √(p * frobSq B) := by
+  rw [realignM_kron]
+  have h1 := h.re_trace_vecMulVec_sq_le (vecr A) (vecr B)
+  rw [nsq_vecr, nsq_vecr] at h1
+  rw [← Real.sqrt_mul (mul_nonneg hp (frobSq_nonneg A))]
+  refine (le_abs_self _).trans (Real.abs_le_sqrt ?_)
+  calc (p * (Wᴴ * vecMulVec (vecr A) (vecr B)).trace.re) ^ 2
+      = p ^ 2 * (Wᴴ * vecMulVec (vecr A) (vecr B)).trace.re ^ 2 := by ring
+    _ ≤ p ^ 2 * (frobSq A * frobSq B) := mul_le_mul_of_nonneg_left h1 (sq_nonneg p)
+    _ = p * frobSq A * (p * frobSq B) := by ring
+
+/-- **Zhang–Zhang–Zhang–Guo bound, general form.**  For `ρ = Σ_k p_k α_k ⊗ β_k` with a probability vector `p`
+and local operators of trace one with `‖α_k‖_F, ‖β_k‖_F ≤ 1` (density operators), the marginals are
+`ρ_A = Σ p_k α_k`, `ρ_B = Σ p_k β_k`, both `1 − ‖ρ_A‖_F²`, `1 − ‖ρ_B‖_F²` are non-negative and
+`Re tr(Wᴴ R(ρ − ρ_A ⊗ ρ_B)) ≤ √((1 − ‖ρ_A‖_F²)(1 − ‖ρ_B‖_F²))` for every contraction `W`. -/
+theorem zhang_general {K : Type*} (s : Finset K) (p : K → ℝ) (α : K → Matrix m m ℂ)
+    (β : K → Matrix n n ℂ) (hp : ∀ k ∈ s, 0 ≤ p k) (hsum : ∑ k ∈ s, p k = 1)
+    (htα : ∀ k ∈ s, (α k).trace = 1) (htβ : ∀ k ∈ s, (β k).trace = 1)
+    (hfα : ∀ k ∈ s, frobSq (α k) ≤ 1) (hfβ : ∀ k ∈ s, frobSq (β k) ≤ 1)
+    {W : Matrix (m × m) (n × n) ℂ} (hW : IsContr W) (ρ : Matrix (m × n) (m × n) ℂ)
+    (hρ : ρ = ∑ k ∈ s, (p k : ℂ) • (α k ⊗ₖ β k)) :
+    ptrB ρ = ∑ k ∈ s, (p k : ℂ) • α k ∧ ptrA ρ = ∑ k ∈ s, (p k : ℂ) • β k ∧
+    0 ≤ 1 - frobSq (ptrB ρ) ∧ 0 ≤ 1 - frobSq (ptrA ρ) ∧
+    (Wᴴ * realignM (ρ - ptrB ρ ⊗ₖ ptrA ρ)).trace.re
+      ≤ √((1 - frobSq (ptrB ρ)) * (1 - frobSq (ptrA ρ))) := by
+  have hA : ptrB ρ = ∑ k ∈ s, (p k : ℂ) • α k := by
+    rw [hρ, ptrB_sum]
+    refine Finset.sum_congr rfl fun k hk => ?_
+    rw [ptrB_smul, ptrB_kron, htβ k hk, one_smul]
+  have hB : ptrA ρ = ∑ k ∈ s, (p k : ℂ) • β k := by
+    rw [hρ, ptrA_sum]
+    refine Finset.sum_congr rfl fun k hk => ?_
+    rw [ptrA_smul, ptrA_kron, htα k hk, one_smul]
+  -- variances
+  have vA := frobSq_var s p α hsum
+  have vB := frobSq_var s p β hsum
+  rw [← hA] at vA
+  rw [← hB] at vB
+  have sA : ∑ k ∈ s, p k * frobSq (α k) ≤ 1 := by
+    rw [← hsum]
+    exact Finset.sum_le_sum fun k hk => by
+      simpa using mul_le_mul_of_nonneg_left (hfα k hk) (hp k hk)
+  have sB : ∑ k ∈ s, p k * frobSq (β k) ≤ 1 := by
+    rw [← hsum]
+    exact Finset.sum_le_sum fun k hk => by
+      simpa using mul_le_mul_of_nonneg_left (hfβ k hk) (hp k hk)
+  have nA : 0 ≤ ∑ k ∈ s, p k * frobSq (α k - ptrB ρ) :=
+    Finset.sum_nonneg fun k hk => mul_nonneg (hp k hk) (frobSq_nonneg _)
+  have nB : 0 ≤ ∑ k ∈ s, p k * frobSq (β k - ptrA ρ) :=
+    Finset.sum_nonneg fun k hk => mul_nonneg (hp k hk) (frobSq_nonneg _)
+  have uA : ∑ k ∈ s, p k * frobSq (α k - ptrB ρ) ≤ 1 - frobSq (ptrB ρ) := by linarith
+  have uB : ∑ k ∈ s, p k * frobSq (β k - ptrA ρ) ≤ 1 - frobSq (ptrA ρ) := by linarith
+  refine ⟨hA, hB, by linarith, by linarith, ?_⟩
+  have hcov := kron_cov s p α β hsum
+  rw [← hA, ← hB, ← hρ] at hcov
+  rw [← hcov, realignM_sum, Matrix.mul_sum, Matrix.trace_sum, Complex.re_sum]
+  calc ∑ k ∈ s, (Wᴴ * realignM ((p k : ℂ) • ((α k - ptrB ρ) ⊗ₖ (β k - ptrA ρ)))).trace.re
+      = ∑ k ∈ s, p k * (Wᴴ * realignM ((α k - ptrB ρ) ⊗ₖ (β k - ptrA ρ))).trace.re := by
+        refine Finset.sum_congr rfl fun k _ => ?_
+        rw [realignM_smul, Matrix.mul_smul, Matrix.trace_smul, smul_eq_mul, Complex.re_ofReal_mul]
+    _ ≤ ∑ k ∈ s, √(p k * frobSq (α k - ptrB ρ)) * √(p k * frobSq (β k - ptrA ρ)) :=
+        Finset.sum_le_sum fun k hk => hW.weighted_term_le (p k) (hp k hk) _ _
+    _ ≤ √(∑ k ∈ s, p k * frobSq (α k - ptrB ρ)) * √(∑ k ∈ s, p k * frobSq (β k - ptrA ρ)) := by
+        refine (Real.sum_mul_le_sqrt_mul_sqrt s _ _).trans_eq ?_
+        congr 2
+        · exact Finset.sum_congr rfl fun k hk => Real.sq_sqrt (mul_nonneg (hp k hk) (frobSq_nonneg _))
+        · exact Finset.sum_congr rfl fun k hk => Real.sq_sqrt (mul_nonneg (hp k hk) (frobSq_nonneg _))
+    _ ≤ √(1 - frobSq (ptrB ρ)) * √(1 - frobSq (ptrA ρ)) :=
+        mul_le_mul (Real.sqrt_le_sqrt uA) (Real.sqrt_le_sqrt uB) (Real.sqrt_nonneg _) (Real.sqrt_nonneg _)
+    _ = √((1 - frobSq (ptrB ρ)) * (1 - frobSq (ptrA ρ))) := by
+        rw [Real.sqrt_mul (by linarith)]
+
+end ZhangMain
+
+section ZhangSep
+variable {m n : Type*} [Fintype m] [Fintype n]
+
+theorem frobSq_smul_gen {ι κ : Type*} [Fintype ι] [Fintype κ] (q : ℝ) (X : Matrix ι κ ℂ) :
+    frobSq ((q : ℂ) • X) = q ^ 2 * frobSq X := by
+  unfold frobSq
+  simp_rw [Finset.mul_sum]
+  refine Finset.sum_congr rfl fun i _ => Finset.sum_congr rfl fun j _ => ?_
+  simp [Complex.normSq_mul, pow_two]
+
+theorem eq_zero_of_nsq_eq_zero {ι : Type*} [Fintype ι] {a : ι → ℂ} (h : nsq a = 0) : a = 0 := by
+  funext i
+  have := (Finset.sum_eq_zero_iff_of_nonneg (fun i _ => Complex.normSq_nonneg (a i))).mp h i
+    (Finset.mem_univ i)
+  exact Complex.normSq_eq_zero.mp this
+
+theorem proj_zero {ι : Type*} : proj (0 : ι → ℂ) = 0 := by
+  ext i j; simp [proj, vecMulVec_apply]
+
+/-- the normalised projector `a aᴴ / ‖a‖²` has trace one and Frobenius norm one -/
+theorem normalised_proj {ι : Type*} [Fintype ι] (a : ι → ℂ) (h : nsq a ≠ 0) :
+    ((((1 / nsq a : ℝ)) : ℂ) • proj a).trace = 1 ∧ frobSq ((((1 / nsq a : ℝ)) : ℂ) • proj a) = 1 := by
+  constructor
+  · rw [Matrix.trace_smul, trace_proj, smul_eq_mul, ← Complex.ofReal_mul, one_div_mul_cancel h]
+    simp
+  · rw [frobSq_smul_gen, frobSq_proj]
+    field_simp
+
+variable [DecidableEq n]
+
+/-- **Zhang et al. bound for separable states of trace one.** -/
+theorem IsSepMix.zhang {ρ : Matrix (m × n) (m × n) ℂ} (hρ : IsSepMix ρ) (ht : ρ.trace = 1)
+    {W : Matrix (m × m) (n × n) ℂ} (hW : IsContr W) :
+    0 ≤ 1 - frobSq (ptrB ρ) ∧ 0 ≤ 1 - frobSq (ptrA ρ) ∧
+    (Wᴴ * realignM (ρ - ptrB ρ ⊗ₖ ptrA ρ)).trace.re
+      ≤ √((1 - frobSq (ptrB ρ)) * (1 - frobSq (ptrA ρ))) := by
+  classical
+  obtain ⟨K, w, a, b, hw, rfl⟩ := hρ
+  set c : Fin K → ℝ := fun k => nsq (a k) * nsq (b k) with hc
+  set s : Finset (Fin K) := Finset.univ.filter fun k => c k ≠ 0 with hs
+  have hterm : ∀ k, c k = 0 → (w k : ℂ) • (proj (a k) ⊗ₖ proj (b k)) = 0 := by
+    intro k hk
+    rcases mul_eq_zero.mp hk with h0 | h0
+    · rw [eq_zero_of_nsq_eq_zero h0, proj_zero, zero_kronecker, smul_zero]
+    · rw [eq_zero_of_nsq_eq_zero h0, proj_zero, kronecker_zero, smul_zero]
+  have hmem : ∀ k ∈ s, nsq (a k) ≠ 0 ∧ nsq (b k) ≠ 0 := by
+    intro k hk
+    have : c k ≠ 0 := (Finset.mem_filter.mp hk).2
+    exact ⟨left_ne_zero_of_mul this, right_ne_zero_of_mul this⟩
+  have hρs : ∑ k, (w k : ℂ) • (proj (a k) ⊗ₖ proj (b k))
+      = ∑ k ∈ s, ((w k * c k : ℝ) : ℂ) •
+          (((((1 / nsq (a k) : ℝ)) : ℂ) • proj (a k)) ⊗ₖ ((((1 / nsq (b k) : ℝ)) : ℂ) • proj (b k))) := by
+    rw [← Finset.sum_filter_of_ne (p := fun k => c k ≠ 0)
+      (fun k _ hne hck => hne (hterm k hck))]
+    refine Finset.sum_congr rfl fun k hk => ?_
+    obtain ⟨ha, hb⟩ := hmem k hk
+    rw [smul_kronecker, kronecker_smul, smul_smul, smul_smul]
+    congr 1
+    rw [← Complex.ofReal_mul, ← Complex.ofReal_mul, hc]
+    congr 1
+    field_simp
+  have hsum : ∑ k ∈ s, w k * c k = 1 := by
+    have h1 : ∑ k ∈ s, w k * c k = ∑ k, w k * c k := by
+      refine Finset.sum_filter_of_ne fun k _ hne hck => hne ?_
+      rw [hck, mul_zero]
+    rw [h1]
+    have h2 : (∑ k, (w k : ℂ) • (proj (a k) ⊗ₖ proj (b k))).trace = ((∑ k, w k * c k : ℝ) : ℂ) := by
+      rw [Matrix.trace_sum, Complex.ofReal_sum]
+      refine Finset.sum_congr rfl fun k _ => ?_
+      rw [Matrix.trace_smul, trace_proj_kron, smul_eq_mul, ← Complex.ofReal_mul]
+    rw [h2] at ht
+    exact_mod_cast ht
+  obtain ⟨-, -, h1, h2, h3⟩ := zhang_general s (fun k => w k * c k)
+    (fun k => (((1 / nsq (a k) : ℝ)) : ℂ) • proj (a k)) (fun k => (((1 / nsq (b k) : ℝ)) : ℂ) • proj (b k))
+    (fun k _ => mul_nonneg (hw k) (mul_nonneg (nsq_nonneg _) (nsq_nonneg _))) hsum
+    (fun k hk => (normalised_proj (a k) (hmem k hk).1).1) (fun k hk => (normalised_proj (b k) (hmem k hk).2).1)
+    (fun k hk => (normalised_proj (a k) (hmem k hk).1).2.le) (fun k hk => (normalised_proj (b k) (hmem k hk).2).2.le)
+    hW _ hρs
+  exact ⟨h1, h2, h3⟩
+
+end ZhangSep
+
+/-! ## Positive-map criterion -/
+
+section PosMap
+variable {m n n' : Type*}
+
+/-- the block `X((a,·),(a',·))` of the second party -/
+def blockB (X : Matrix (m × n) (m × n) ℂ) (a a' : m) : Matrix n n ℂ := fun b b' => X (a, b) (a', b')
+
+/-- the block `X((·,b),(·,b'))` of the first party -/
+def blockA (X : Matrix (m × n) (m × n) ℂ) (b b' : n) : Matrix m m ℂ := fun a a' => X (a, b) (a', b')
+
+/-- `(id ⊗ Λ)(X)`: apply `Λ` to every block `X((a,·),(a',·))` of the second party -/
+def applyB (Λ : Matrix n n ℂ →ₗ[ℂ] Matrix n' n' ℂ) (X : Matrix (m × n) (m × n) ℂ) :
+    Matrix (m × n') (m × n') ℂ :=
+  fun i j => Λ (blockB X i.1 j.1) i.2 j.2
+
+/-- `(Λ ⊗ id)(X)`: apply `Λ` to every block `X((·,b),(·,b'))` of the first party -/
+def applyA (Λ : Matrix m m ℂ →ₗ[ℂ] Matrix n' n' ℂ) (X : Matrix (m × n) (m × n) ℂ) :
+    Matrix (n' × n) (n' × n) ℂ :=
+  fun i j => Λ (blockA X i.2 j.2) i.1 j.1
+
+/-- `Λ` maps every (unnormalised) pure state `b bᴴ` to a positive semidefinite operator.  Every positive map
+has this property (for linear maps it is equivalent to positivity, by the spectral theorem), and it is the
+only property the criterion needs. -/
+def IsPosOnPure {ι κ : Type*} (Λ : Matrix ι ι ℂ →ₗ[ℂ] Matrix κ κ ℂ) : Prop :=
+  ∀ b : ι → ℂ, (Λ (proj b)).PosSemidef
+
+theorem blockB_kron (A : Matrix m m ℂ) (B : Matrix n n ℂ) (a a' : m) :
+    blockB (A ⊗ₖ B) a a' = A a a' • B := by
+  ext c c'; simp [blockB, kroneckerMap_apply]
+
+theorem blockA_kron (A : Matrix m m ℂ) (B : Matrix n n ℂ) (b b' : n) :
+    blockA (A ⊗ₖ B) b b' = B b b' • A := by
+  ext c c'; simp [blockA, kroneckerMap_apply, mul_comm]
+
+theorem blockB_smul (c : ℂ) (X : Matrix (m × n) (m × n) ℂ) (a a' : m) :
+    blockB (c • X) a a' = c • blockB X a a' := by
+  ext b b'; simp [blockB]
+
+theorem blockA_smul (c : ℂ) (X : Matrix (m × n) (m × n) ℂ) (b b' : n) :
+    blockA (c • X) b b' = c • blockA X b b' := by
+  ext a a'; simp [blockA]
+
+theorem blockB_sum {K : Type*} (s : Finset K) (f : K → Matrix (m × n) (m × n) ℂ) (a a' : m) :
+    blockB (∑ k ∈ s, f k) a a' = ∑ k ∈ s, blockB (f k) a a' := by
+  ext b b'; simp [blockB, Matrix.sum_apply]
+
+theorem blockA_sum {K : Type*} (s : Finset K) (f : K → Matrix (m × n) (m × n) ℂ) (b b' : n) :
+    blockA (∑ k ∈ s, f k) b b' = ∑ k ∈ s, blockA (f k) b b' := by
+  ext a a'; simp [blockA, Matrix.sum_apply]
+
+theorem applyB_kron (Λ : Matrix n n ℂ →ₗ[ℂ] Matrix n' n' ℂ) (A : Matrix m m ℂ) (B : Matrix n n ℂ) :
+    applyB Λ (A ⊗ₖ B) = A ⊗ₖ Λ B := by
+  ext ⟨a, b⟩ ⟨a', b'⟩
+  simp only [applyB, blockB_kron, map_smul, kroneckerMap_apply, Matrix.smul_apply, smul_eq_mul]
+
+theorem applyA_kron (Λ : Matrix m m ℂ →ₗ[ℂ] Matrix n' n' ℂ) (A : Matrix m m ℂ) (B : Matrix n n ℂ) :
+    applyA Λ (A ⊗ₖ B) = Λ A ⊗ₖ B := by
+  ext ⟨a, b⟩ ⟨a', b'⟩
+  simp only [applyA, blockA_kron, map_smul, kroneckerMap_apply, Matrix.smul_apply, smul_eq_mul, mul_comm]
+
+theorem applyB_smul (Λ : Matrix n n ℂ →ₗ[ℂ] Matrix n' n' ℂ) (c : ℂ) (X : Matrix (m × n) (m × n) ℂ) :
+    applyB Λ (c • X) = c • applyB Λ X := by
+  ext i j
+  simp only [applyB, blockB_smul, map_smul, Matrix.smul_apply]
+
+theorem applyA_smul (Λ : Matrix m m ℂ →ₗ[ℂ] Matrix n' n' ℂ) (c : ℂ) (X : Matrix (m × n) (m × n) ℂ) :
+    applyA Λ (c • X) = c • applyA Λ X := by
+  ext i j
+  simp only [applyA, blockA_smul, map_smul, Matrix.smul_apply]
+
+theorem applyB_sum (Λ : Matrix n n ℂ →ₗ[ℂ] Matrix n' n' ℂ) {K : Type*} (s : Finset K)
+    (f : K → Matrix (m × n) (m × n) ℂ) : applyB Λ (∑ k ∈ s, f k) = ∑ k ∈ s, applyB Λ (f k) := by
+  ext i j
+  simp only [applyB, blockB_sum, map_sum, Matrix.sum_apply]
+
+theorem applyA_sum (Λ : Matrix m m ℂ →ₗ[ℂ] Matrix n' n' ℂ) {K : Type*} (s : Finset K)
+    (f : K → Matrix (m × n) (m × n) ℂ) : applyA Λ (∑ k ∈ s, f k) = ∑ k ∈ s, applyA Λ (f k) := by
+  ext i j
+  simp only [applyA, blockA_sum, map_sum, Matrix.sum_apply]
+
+/-- **Positive-map criterion**: `(id ⊗ Λ)(ρ) ⪰ 0` for every separable mixture `ρ` and every `Λ` that is positive
+on pure states -/
+theorem IsSepMix.applyB_posSemidef [Finite m] [Finite n'] {ρ : Matrix (m × n) (m × n) ℂ} (h : IsSepMix ρ)
+    {Λ : Matrix n n ℂ →ₗ[ℂ] Matrix n' n' ℂ} (hΛ : IsPosOnPure Λ) : (applyB Λ ρ).PosSemidef := by
+  obtain ⟨K, w, a, b, hw, rfl⟩ := h
+  rw [applyB_sum]
+  simp only [applyB_smul, applyB_kron]
+  exact posSemidef_sum_smul_kron w _ _ hw (fun k => proj_posSemidef _) fun k => hΛ _
+
+theorem IsSepMix.applyA_posSemidef [Finite n] [Finite n'] {ρ : Matrix (m × n) (m × n) ℂ} (h : IsSepMix ρ)
+    {Λ : Matrix m m ℂ →ₗ[ℂ] Matrix n' n' ℂ} (hΛ : IsPosOnPure Λ) : (applyA Λ ρ).PosSemidef := by
+  obtain ⟨K, w, a, b, hw, rfl⟩ := h
+  rw [applyA_sum]
+  simp only [applyA_smul, applyA_kron]
+  exact posSemidef_sum_smul_kron w _ _ hw (fun k => hΛ _) fun k => proj_posSemidef _
+
+end PosMap
+
+section Choi
+variable {n n' : Type*} [Fintype n]
+
+/-- the linear map with Choi matrix `J = Σ_ij E_ij ⊗ Φ(E_ij)` (toqito's convention): `Φ(X) = Σ_ij X_ij J((i,·),(j,·))` -/
+def choiMap (J : Matrix (n × n') (n × n') ℂ) : Matrix n n ℂ →ₗ[ℂ] Matrix n' n' ℂ where
+  toFun X := fun b b' => ∑ i, ∑ j, X i j * J (i, b) (j, b')
+  map_add' X Y := by
+    ext b b'
+    change ∑ i, ∑ j, (X + Y) i j * J (i, b) (j, b')
+      = (∑ i, ∑ j, X i j * J (i, b) (j, b')) + ∑ i, ∑ j, Y i j * J (i, b) (j, b')
+    simp only [Matrix.add_apply, add_mul, Finset.sum_add_distrib]
+  map_smul' c X := by
+    ext b b'
+    change ∑ i, ∑ j, (c • X) i j * J (i, b) (j, b') = c * ∑ i, ∑ j, X i j * J (i, b) (j, b')
+    simp only [Matrix.smul_apply, smul_eq_mul, Finset.mul_sum, mul_assoc]
+
+theorem choiMap_apply (J : Matrix (n × n') (n × n') ℂ) (X : Matrix n n ℂ) (b b' : n') :
+    choiMap J X b b' = ∑ i, ∑ j, X i j * J (i, b) (j, b') := rfl
+
+end Choi
+
+/-! ## Singular value decompositions attain the dual form of the trace norm; purities -/
+
+section SVD
+variable {ι κ r : Type*} [Fintype ι] [Fintype κ] [Fintype r] [DecidableEq κ] [DecidableEq r]
+
+/-- `U Vᴴ` is a contraction when `U`, `V` have orthonormal columns -/
+theorem isContr_mul_conjTranspose (U : Matrix ι r ℂ) (V : Matrix κ r ℂ) (hU : Uᴴ * U = 1)
+    (hV : Vᴴ * V = 1) : IsContr (U * Vᴴ) := by
+  unfold IsContr
+  have e : (U * Vᴴ)ᴴ * (U * Vᴴ) = V * Vᴴ := by
+    rw [conjTranspose_mul, conjTranspose_conjTranspose, Matrix.mul_assoc, ← Matrix.mul_assoc Uᴴ, hU,
+      Matrix.one_mul]
+  have hP : (V * Vᴴ) * (V * Vᴴ) = V * Vᴴ := by
+    rw [Matrix.mul_assoc, ← Matrix.mul_assoc Vᴴ, hV, Matrix.one_mul]
+  have hH : (V * Vᴴ)ᴴ = V * Vᴴ := by
+    rw [conjTranspose_mul, conjTranspose_conjTranspose]
+  have : 1 - V * Vᴴ = (1 - V * Vᴴ)ᴴ * (1 - V * Vᴴ) := by
+    rw [conjTranspose_sub, conjTranspose_one, hH, Matrix.mul_sub, Matrix.sub_mul, Matrix.sub_mul,
+      Matrix.one_mul, Matrix.mul_one, Matrix.one_mul, hP]
+    abel
+  rw [e, this]
+  exact posSemidef_conjTranspose_mul_self _
+
+omit [DecidableEq κ] in
+/-- pairing a singular value decomposition with its polar factor gives the sum of the singular values -/
+theorem trace_polar_mul_svd (U : Matrix ι r ℂ) (V : Matrix κ r ℂ) (σ : r → ℝ) (hU : Uᴴ * U = 1)
+    (hV : Vᴴ * V = 1) :
+    ((U * Vᴴ)ᴴ * (U * diagonal (fun i => (σ i : ℂ)) * Vᴴ)).trace = ((∑ i, σ i : ℝ) : ℂ) := by
+  rw [conjTranspose_mul, conjTranspose_conjTranspose]
+  have : V * Uᴴ * (U * diagonal (fun i => (σ i : ℂ)) * Vᴴ)
+      = V * (diagonal (fun i => (σ i : ℂ)) * Vᴴ) := by
+    rw [Matrix.mul_assoc V, Matrix.mul_assoc U, ← Matrix.mul_assoc Uᴴ, hU, Matrix.one_mul]
+  rw [this, Matrix.trace_mul_comm, Matrix.mul_assoc, hV, Matrix.mul_one, Matrix.trace_diagonal,
+    Complex.ofReal_sum]
+
+end SVD
+
+section Herm
+/-- for Hermitian `A`: `Re tr(A A) = ‖A‖_F²` (the "purity" the code computes) -/
+theorem re_trace_mul_self_of_isHermitian {ι : Type*} [Fintype ι] {A : Matrix ι ι ℂ} (h : A.IsHermitian) :
+    (A * A).trace.re = frobSq A := by
+  unfold frobSq
+  simp only [Matrix.trace, Matrix.diag_apply, Matrix.mul_apply, Complex.re_sum]
+  refine Finset.sum_congr rfl fun i _ => Finset.sum_congr rfl fun j _ => ?_
+  have : A j i = star (A i j) := by rw [← h.apply j i]
+  rw [this, Complex.star_def, Complex.mul_conj]
+  simp
+
+theorem ptrB_isHermitian {m n : Type*} [Fintype n] {X : Matrix (m × n) (m × n) ℂ} (h : X.IsHermitian) :
+    (ptrB X).IsHermitian := by
+  ext a a'
+  simp only [ptrB, conjTranspose_apply, star_sum]
+  exact Finset.sum_congr rfl fun b _ => h.apply _ _
+
+theorem ptrA_isHermitian {m n : Type*} [Fintype m] {X : Matrix (m × n) (m × n) ℂ} (h : X.IsHermitian) :
+    (ptrA X).IsHermitian := by
+  ext b b'
+  simp only [ptrA, conjTranspose_apply, star_sum]
+  exact Finset.sum_congr rfl fun a _ => h.apply _ _
+end Herm
+
+/-! ## Positive maps used by the cascade: transposition, reduction, Breuer–Hall -/
+
+section Instances
+variable {n : Type*}
+
+/-- the transposition map -/
+def transposeL : Matrix n n ℂ →ₗ[ℂ] Matrix n n ℂ := (Matrix.transposeLinearEquiv n n ℂ ℂ).toLinearMap
+
+@[simp] theorem transposeL_apply (X : Matrix n n ℂ) : transposeL X = Xᵀ := rfl
+
+theorem transposeL_pos [Finite n] : IsPosOnPure (transposeL (n := n)) := fun b => by
+  rw [transposeL_apply, transpose_proj]; exact proj_posSemidef _
+
+theorem applyB_transposeL {m : Type*} (X : Matrix (m × n) (m × n) ℂ) :
+    applyB transposeL X = ptBM X := rfl
+
+variable [Fintype n]
+
+theorem star_dot_comm (x b : n → ℂ) : star x ⬝ᵥ b = (starRingEnd ℂ) (star b ⬝ᵥ x) := by
+  simp [dotProduct, mul_comm]
+
+/-- `xᴴ (b bᴴ) x = |⟨b, x⟩|²` -/
+theorem quad_proj (b x : n → ℂ) :
+    star x ⬝ᵥ (proj b *ᵥ x) = ((Complex.normSq (star b ⬝ᵥ x) : ℝ) : ℂ) := by
+  have h1 : star x ⬝ᵥ (proj b *ᵥ x) = (star x ⬝ᵥ b) * (star b ⬝ᵥ x) := by
+    simp only [dotProduct, mulVec, proj, vecMulVec_apply, Pi.star_apply, Finset.sum_mul_sum]
+    refine Finset.sum_congr rfl fun i _ => ?_
+    rw [Finset.mul_sum]
+    refine Finset.sum_congr rfl fun j _ => ?_
+    ring
+  rw [h1, star_dot_comm, mul_comm, Complex.mul_conj]
+
+variable [DecidableEq n]
+
+/-- the reduction map `X ↦ tr(X)·1 − X` -/
+def reductionL : Matrix n n ℂ →ₗ[ℂ] Matrix n n ℂ :=
+  (LinearMap.smulRight (Matrix.traceLinearMap n ℂ ℂ) (1 : Matrix n n ℂ)) - LinearMap.id
+
+@[simp] theorem reductionL_apply (X : Matrix n n ℂ) : reductionL X = X.trace • (1 : Matrix n n ℂ) - X := rfl
+
+omit [DecidableEq n] in
+theorem proj_isHermitian (b : n → ℂ) : (proj b).IsHermitian := (proj_posSemidef b).1
+
+/-- the reduction map is positive on pure states: `‖b‖²·1 − b bᴴ ⪰ 0` (Cauchy–Schwarz) -/
+theorem reductionL_pos : IsPosOnPure (reductionL (n := n)) := fun b => by
+  rw [reductionL_apply, trace_proj]
+  refine PosSemidef.of_dotProduct_mulVec_nonneg ?_ fun x => ?_
+  · refine IsHermitian.sub ?_ (proj_isHermitian b)
+    ext i j
+    by_cases h : i = j <;> simp [conjTranspose_apply, h, eq_comm]
+  · rw [Matrix.sub_mulVec, dotProduct_sub, Matrix.smul_mulVec, Matrix.one_mulVec, dotProduct_smul,
+      star_dotProduct_self, quad_proj, smul_eq_mul, ← Complex.ofReal_mul, ← Complex.ofReal_sub]
+    exact Complex.zero_le_real.mpr (sub_nonneg.mpr (normSq_dot_le b x))
+
+end Instances
+
+section BreuerHall
+variable {n : Type*} [Fintype n]
+
+theorem nsq_add (u v : n → ℂ) : nsq (u + v) = nsq u + nsq v + 2 * (star u ⬝ᵥ v).re := by
+  unfold nsq dotProduct
+  rw [Complex.re_sum, Finset.mul_sum, ← Finset.sum_add_distrib, ← Finset.sum_add_distrib]
+  refine Finset.sum_congr rfl fun i _ => ?_
+  simp [Complex.normSq_apply]
+  ring
+
+/-- Bessel for two orthogonal vectors of squared norm at most `c`:
+`|⟨b,x⟩|² + |⟨φ,x⟩|² ≤ c ‖x‖²` -/
+theorem bessel_two (b φ x : n → ℂ) (c : ℝ) (hb : nsq b ≤ c) (hφ : nsq φ ≤ c) (horth : star b ⬝ᵥ φ = 0) :
+    Complex.normSq (star b ⬝ᵥ x) + Complex.normSq (star φ ⬝ᵥ x) ≤ c * nsq x := by
+  set β := star b ⬝ᵥ x with hβ
+  set γ := star φ ⬝ᵥ x with hγ
+  set T := Complex.normSq β + Complex.normSq γ with hT
+  have hT0 : 0 ≤ T := add_nonneg (Complex.normSq_nonneg _) (Complex.normSq_nonneg _)
+  set v : n → ℂ := β • b + γ • φ with hv
+  have h1 : star v ⬝ᵥ x = ((T : ℝ) : ℂ) := by
+    rw [hv, star_add, add_dotProduct, star_smul, star_smul, smul_dotProduct, smul_dotProduct, ← hβ, ← hγ,
+      smul_eq_mul, smul_eq_mul]
+    change (starRingEnd ℂ) β * β + (starRingEnd ℂ) γ * γ = _
+    rw [mul_comm, Complex.mul_conj, mul_comm ((starRingEnd ℂ) γ), Complex.mul_conj, hT]
+    push_cast; rfl
+  have h2 : nsq v ≤ c * T := by
+    have e : star (β • b) ⬝ᵥ (γ • φ) = 0 := by
+      rw [star_smul, smul_dotProduct, dotProduct_smul, horth]; simp
+    rw [hv, nsq_add, e, nsq_smul, nsq_smul]
+    simp only [Complex.zero_re, mul_zero, add_zero]
+    have := mul_le_mul_of_nonneg_left hb (Complex.normSq_nonneg β)
+    have := mul_le_mul_of_nonneg_left hφ (Complex.normSq_nonneg γ)
+    rw [hT]; nlinarith
+  have h3 := normSq_dot_le v x
+  rw [h1, Complex.normSq_ofReal] at h3
+  rcases hT0.lt_or_eq with hpos | h0
+  · have : T * T ≤ T * (c * nsq x) := by
+      calc T * T ≤ nsq v * nsq x := h3
+        _ ≤ c * T * nsq x := mul_le_mul_of_nonneg_right h2 (nsq_nonneg x)
+        _ = T * (c * nsq x) := by ring
+    exact le_of_mul_le_mul_left this hpos
+  · rw [← h0]
+    have hc : 0 ≤ c := (nsq_nonneg b).trans hb
+    exact mul_nonneg hc (nsq_nonneg x)
+
+/-- `cᵀ U c = 0` for antisymmetric `U` -/
+theorem antisymm_quad_zero {U : Matrix n n ℂ} (hU : Uᵀ = -U) (c : n → ℂ) : c ⬝ᵥ (U *ᵥ c) = 0 := by
+  have h : c ⬝ᵥ (U *ᵥ c) = - (c ⬝ᵥ (U *ᵥ c)) := by
+    conv_lhs => rw [dotProduct_mulVec, ← mulVec_transpose, hU, dotProduct_comm, Matrix.neg_mulVec,
+      dotProduct_neg]
+  have : (2 : ℂ) * (c ⬝ᵥ (U *ᵥ c)) = 0 := by linear_combination h
+  simpa using this
+
+variable [DecidableEq n]
+
+/-- the Breuer–Hall map `X ↦ tr(X)·1 − X − U Xᵀ Uᴴ` -/
+def breuerHallL (U : Matrix n n ℂ) : Matrix n n ℂ →ₗ[ℂ] Matrix n n ℂ :=
+  reductionL - (LinearMap.mulLeft ℂ U ∘ₗ LinearMap.mulRight ℂ Uᴴ) ∘ₗ transposeL
+
+theorem breuerHallL_apply (U X : Matrix n n ℂ) :
+    breuerHallL U X = X.trace • (1 : Matrix n n ℂ) - X - U * (Xᵀ * Uᴴ) := rfl
+
+/-- **The Breuer–Hall map is positive** (on pure states) for every antisymmetric contraction `U`, in particular
+for every antisymmetric unitary: `‖b‖²·1 − b bᴴ − φ φᴴ ⪰ 0` with `φ = U b̄ ⟂ b`, `‖φ‖ ≤ ‖b‖`. -/
+theorem breuerHallL_pos {U : Matrix n n ℂ} (hanti : Uᵀ = -U) (hU : IsContr U) :
+    IsPosOnPure (breuerHallL U) := fun b => by
+  set φ := U *ᵥ star b with hφ
+  have e : breuerHallL U (proj b) = ((nsq b : ℝ) : ℂ) • (1 : Matrix n n ℂ) - proj b - proj φ := by
+    rw [breuerHallL_apply, trace_proj, transpose_proj, ← Matrix.mul_assoc, conj_proj]
+  rw [e]
+  refine PosSemidef.of_dotProduct_mulVec_nonneg ?_ fun x => ?_
+  · refine IsHermitian.sub (IsHermitian.sub ?_ (proj_isHermitian b)) (proj_isHermitian φ)
+    ext i j
+    by_cases h : i = j <;> simp [conjTranspose_apply, h, eq_comm]
+  · rw [Matrix.sub_mulVec, Matrix.sub_mulVec, dotProduct_sub, dotProduct_sub, Matrix.smul_mulVec,
+      Matrix.one_mulVec, dotProduct_smul, star_dotProduct_self, quad_proj, quad_proj, smul_eq_mul,
+      ← Complex.ofReal_mul, ← Complex.ofReal_sub, ← Complex.ofReal_sub]
+    refine Complex.zero_le_real.mpr ?_
+    have horth : star b ⬝ᵥ φ = 0 := antisymm_quad_zero hanti (star b)
+    have hn : nsq φ ≤ nsq b := by
+      have := hU.nsq_mulVec_le (star b)
+      rwa [nsq_star] at this
+    have := bessel_two b φ x (nsq b) le_rfl hn horth
+    linarith
+
+end BreuerHall
+
+/-! ## Bridge: the executable evaluators on flat indices compute `realignM`, `ptrB`, `ptrA`, `applyB`, `applyA` -/
+
+section Bridge2
+variable {dA dB dO : Nat}
+
+/-- the executable realignment, read on pair indices, is `realignM` -/
+theorem realignE_toM (X : EMat (dA * dB) (dA * dB)) :
+    (realignE X).toM.submatrix (pairEquiv dA dA) (pairEquiv dB dB) = realignM (unflat X.toM) := by
+  ext ⟨a, a'⟩ ⟨b, b'⟩
+  simp [realignE, realignM]
+
+theorem ptrBE_toM (X : EMat (dA * dB) (dA * dB)) : (ptrBE X).toM = ptrB (unflat X.toM) := by
+  ext a a'
+  simp [ptrBE, ptrB, EMat.sumFin_toC]
+
+theorem ptrAE_toM (X : EMat (dA * dB) (dA * dB)) : (ptrAE X).toM = ptrA (unflat X.toM) := by
+  ext b b'
+  simp [ptrAE, ptrA, EMat.sumFin_toC]
+
+theorem choiApplyB_toM (J : EMat (dB * dO) (dB * dO)) (X : EMat (dA * dB) (dA * dB)) :
+    unflat (choiApplyB J X).toM = applyB (choiMap (unflat J.toM)) (unflat X.toM) := by
+  ext ⟨a, o⟩ ⟨a', o'⟩
+  simp [choiApplyB, applyB, blockB, choiMap_apply, EMat.sumFin_toC, QI.toC_mul]
+
+theorem choiApplyA_toM (J : EMat (dA * dO) (dA * dO)) (X : EMat (dA * dB) (dA * dB)) :
+    unflat (choiApplyA J X).toM = applyA (choiMap (unflat J.toM)) (unflat X.toM) := by
+  ext ⟨o, b⟩ ⟨o', b'⟩
+  simp [choiApplyA, applyA, blockA, choiMap_apply, EMat.sumFin_toC, QI.toC_mul]
+
+end Bridge2
+
+/-! ## Closed forms: the Ha–Kye Choi matrices of the cascade, the reduction criterion -/
+
+section Ha
+/-- the Choi matrix built by `is_separable` for the qutrit maps of Ha and Kye:
+`diag(a+1, c, b, b, a+1, c, c, b, a+1) − |Ω⟩⟨Ω|`, `Ω = Σ_i |ii⟩` -/
+def haChoi (a b c : ℝ) : Matrix (Fin 3 × Fin 3) (Fin 3 × Fin 3) ℂ := fun p q =>
+  (if p = q then (if p.2 = p.1 then (a : ℂ) + 1 else if p.2 = p.1 + 1 then (c : ℂ) else (b : ℂ)) else 0)
+    - (if p.1 = p.2 ∧ q.1 = q.2 then 1 else 0)
+
+/-- the map with that Choi matrix is the generalised Choi map `Φ[a,b,c]`:
+diagonal `a x_kk + b x_{k+1,k+1} + c x_{k+2,k+2}`, off-diagonal `−x_kl` -/
+theorem choiMap_haChoi (a b c : ℝ) (X : Matrix (Fin 3) (Fin 3) ℂ) (k l : Fin 3) :
+    choiMap (haChoi a b c) X k l
+      = (if k = l then (a : ℂ) * X k k + b * X (k + 1) (k + 1) + c * X (k + 2) (k + 2) else 0)
+        - (if k = l then 0 else X k l) := by
+  rw [choiMap_apply]
+  fin_cases k <;> fin_cases l <;>
+    simp [haChoi, Fin.sum_univ_three, Prod.ext_iff] <;> ring
+
+end Ha
+
+section Red
+variable {m n : Type*} [Fintype n] [DecidableEq n]
+
+/-- `(id ⊗ R)(ρ) = ρ_A ⊗ 1 − ρ` for the reduction map `R` -/
+theorem applyB_reductionL (X : Matrix (m × n) (m × n) ℂ) :
+    applyB reductionL X = ptrB X ⊗ₖ (1 : Matrix n n ℂ) - X := by
+  ext ⟨a, b⟩ ⟨a', b'⟩
+  simp [applyB, blockB, ptrB, Matrix.trace, kroneckerMap_apply, Matrix.one_apply]
+
+end Red
+
+section Red2
+variable {m n : Type*} [Fintype m] [DecidableEq m]
+
+/-- `(R ⊗ id)(ρ) = 1 ⊗ ρ_B − ρ` -/
+theorem applyA_reductionL (X : Matrix (m × n) (m × n) ℂ) :
+    applyA reductionL X = (1 : Matrix m m ℂ) ⊗ₖ ptrA X - X := by
+  ext ⟨a, b⟩ ⟨a', b'⟩
+  simp [applyA, blockA, ptrA, Matrix.trace, kroneckerMap_apply, Matrix.one_apply]
+end Red2
+
+/-! ## The trace norm in dual form, and its value on any singular value decomposition -/
+
+section Nuc
+variable {ι κ r : Type*} [Fintype ι] [Fintype κ] [DecidableEq κ]
+
+/-- the values `Re tr(Wᴴ M)` over all contractions `W` -/
+def nucSet (M : Matrix ι κ ℂ) : Set ℝ := {x | ∃ W : Matrix ι κ ℂ, IsContr W ∧ (Wᴴ * M).trace.re = x}
+
+/-- trace (nuclear) norm in dual form: `‖M‖₁ = sup { Re tr(Wᴴ M) : 1 − WᴴW ⪰ 0 }` -/
+noncomputable def nucNorm (M : Matrix ι κ ℂ) : ℝ := sSup (nucSet M)
+
+theorem nucSet_nonempty (M : Matrix ι κ ℂ) : (nucSet M).Nonempty :=
+  ⟨0, 0, IsContr.zero, by simp⟩
+
+/-- `‖M‖₁ ≤ c` as soon as every contraction pairs to at most `c` -/
+theorem nucNorm_le {M : Matrix ι κ ℂ} {c : ℝ} (h : ∀ W : Matrix ι κ ℂ, IsContr W → (Wᴴ * M).trace.re ≤ c) :
+    nucNorm M ≤ c :=
+  csSup_le (nucSet_nonempty M) fun _ ⟨W, hW, hx⟩ => hx ▸ h W hW
+
+theorem le_nucNorm {M : Matrix ι κ ℂ} {c : ℝ} (h : ∀ W : Matrix ι κ ℂ, IsContr W → (Wᴴ * M).trace.re ≤ c)
+    {W : Matrix ι κ ℂ} (hW : IsContr W) : (Wᴴ * M).trace.re ≤ nucNorm M :=
+  le_csSup ⟨c, fun _ ⟨W', hW', hx⟩ => hx ▸ h W' hW'⟩ ⟨W, hW, rfl⟩
+
+variable [Fintype r] [DecidableEq r]
+
+omit [DecidableEq κ] [Fintype κ] [Fintype r] in
+theorem nsq_col_of_orthonormal (U : Matrix ι r ℂ) (hU : Uᴴ * U = 1) (i : r) : nsq (fun a => U a i) = 1 := by
+  have h := congrFun (congrFun hU i) i
+  rw [Matrix.mul_apply, Matrix.one_apply_eq] at h
+  have h2 : ((nsq (fun a => U a i) : ℝ) : ℂ) = 1 := by
+    rw [← h, ← star_dotProduct_self]
+    simp [dotProduct, conjTranspose_apply]
+  exact_mod_cast h2
+
+omit [DecidableEq κ] [Fintype ι] [Fintype κ] in
+theorem svd_as_sum (U : Matrix ι r ℂ) (V : Matrix κ r ℂ) (σ : r → ℝ) :
+    U * diagonal (fun i => (σ i : ℂ)) * Vᴴ
+      = ∑ i, (σ i : ℂ) • vecMulVec (fun a => U a i) (fun b => star (V b i)) := by
+  ext a b
+  simp only [Matrix.mul_apply, Matrix.diagonal_apply, Matrix.sum_apply, Matrix.smul_apply, vecMulVec_apply,
+    conjTranspose_apply, smul_eq_mul, mul_ite, mul_zero, Finset.sum_ite_eq', Finset.mem_univ, if_true]
+  refine Finset.sum_congr rfl fun i _ => ?_
+  ring
+
+/-- every contraction pairs with `U diag(σ) Vᴴ` (`σ ≥ 0`, orthonormal columns) to at most `Σ σ_i` -/
+theorem re_trace_svd_le (U : Matrix ι r ℂ) (V : Matrix κ r ℂ) (σ : r → ℝ) (hU : Uᴴ * U = 1)
+    (hV : Vᴴ * V = 1) (hσ : ∀ i, 0 ≤ σ i) {W : Matrix ι κ ℂ} (hW : IsContr W) :
+    (Wᴴ * (U * diagonal (fun i => (σ i : ℂ)) * Vᴴ)).trace.re ≤ ∑ i, σ i := by
+  rw [svd_as_sum, Matrix.mul_sum, Matrix.trace_sum, Complex.re_sum]
+  refine Finset.sum_le_sum fun i _ => ?_
+  rw [Matrix.mul_smul, Matrix.trace_smul, smul_eq_mul, Complex.re_ofReal_mul]
+  have h1 := hW.re_trace_vecMulVec_sq_le (fun a => U a i) (fun b => star (V b i))
+  have e : nsq (fun b => star (V b i)) = nsq (fun b => V b i) := nsq_star (fun b => V b i)
+  rw [e, nsq_col_of_orthonormal U hU, nsq_col_of_orthonormal V hV, mul_one] at h1
+  have h2 : (Wᴴ * vecMulVec (fun a => U a i) fun b => star (V b i)).trace.re ≤ 1 := by
+    have := abs_le_of_sq_le_sq (b := (1 : ℝ)) (by simpa using h1) zero_le_one
+    exact (le_abs_self _).trans this
+  calc σ i * _ ≤ σ i * 1 := mul_le_mul_of_nonneg_left h2 (hσ i)
+    _ = σ i := mul_one _
+
+/-- **the dual form is the sum of the singular values**: for every singular value decomposition
+`M = U diag(σ) Vᴴ` (`UᴴU = 1`, `VᴴV = 1`, `σ ≥ 0`), `‖M‖₁ = Σ_i σ_i` -/
+theorem nucNorm_eq_sum_of_svd (U : Matrix ι r ℂ) (V : Matrix κ r ℂ) (σ : r → ℝ) (hU : Uᴴ * U = 1)
+    (hV : Vᴴ * V = 1) (hσ : ∀ i, 0 ≤ σ i) :
+    nucNorm (U * diagonal (fun i => (σ i : ℂ)) * Vᴴ) = ∑ i, σ i := by
+  refine le_antisymm (nucNorm_le fun W hW => re_trace_svd_le U V σ hU hV hσ hW) ?_
+  have h := le_nucNorm (fun W hW => re_trace_svd_le U V σ hU hV hσ hW)
+    (isContr_mul_conjTranspose U V hU hV)
+  rwa [trace_polar_mul_svd U V σ hU hV, Complex.ofReal_re] at h
+
+end Nuc
 
 end Toq.Sep
